@@ -181,11 +181,7 @@ func (c *dfsChooser) Choose(p verifrt.Point) int {
 // serialOrder, if non-nil, runs the concurrent part as ONE thread executing the listed (thread, index) steps in order.
 func runSchedule(sc *SchedScenario, prefix []int, serialOrder [][2]int, trace bool) (*SchedOutcome, *dfsChooser, error) {
 	resetEnv(1)
-	if sc.Cfg.DataDir != "" {
-		verifrt.SetFS(verifrt.NewMemFS())
-	} else {
-		verifrt.SetFS(nil)
-	}
+	verifrt.SetFS(verifrt.NewMemFS()) // always: see newWorld
 	verifrt.QuiesceTimeout(5*time.Second, 10*time.Millisecond) // nothing of an earlier free-mode instance may still be moving
 	verifrt.BeginControlled()
 	ended := false
